@@ -295,6 +295,11 @@ def template_castle(rng):
             b[sq(rng.randrange(0, rf), 0)] = "R"
     if not cas:
         return None
+    if rng.random() < 0.35:
+        # an enemy rook or queen on the home rank outside a castling rook
+        s = sq(rng.choice([0, 7]), 0)
+        if s not in b:
+            b[s] = rng.choice("rrq")
     for _ in range(rng.randrange(0, 3)):
         s = sq(rng.randrange(8), 0)
         if s not in b:
